@@ -2,3 +2,4 @@
 import Thanos.Driver.Proxy
 import Thanos.Props.C05
 import Thanos.Props.C17
+import Thanos.Props.C03
